@@ -273,7 +273,7 @@ def d4_isolation(facts, rep):
                key_extra=fn.q[-20:])
     for fn in facts.get(R1 + 'task_dispatcher::receive_or_steal_task'):
         defs = Defs(fn)
-        noiso = edges_where(fn, lambda a, truth: n_is(fn, a, '==', 'no_isolation') and truth)
+        noiso = edges_where(fn, lambda a, truth: n_is(fn, resolve_cond_source(fn, defs, a), '==', 'no_isolation') and truth)
         cs = [c for c in calls_named(fn, ('get_stream_or_critical_task',)) if any('fifo' in fn.path(a) for a in c[2].get('a', []))]
         ok = bool(cs) and all(dominated_by_edges(fn, c[0], noiso)[0] for c in cs)
         rep.ob('D4', 'K4', fn, 'the FIFO (enqueue) stream is consulted only without isolation', ok, 'an isolated waiter can pick up enqueued tasks',
